@@ -639,3 +639,14 @@ package keeper
 //@ loop 0: invariant deQueue.Head <= i && i <= deQueue.Tail && deQueue == old(DEQ(Store_tss, address))
 //@ loop 0: invariant forall j Int :: { hasDE(Store_tss, address, j) | types.DEStoreKey(address, j) } deQueue.Head <= j && j < i ==> !hasDE(Store_tss, address, j)
 //@ loop 0: invariant forall q Bz :: !(iskey(types.DEStoreKey, q) && keyarg(types.DEStoreKey, q, 0) == address) && q != types.DEQueueStoreKey(address) ==> Store_tss[q] == old(Store_tss)[q]
+
+// ---- C05: a genesis file cannot start a member off with a nonce queue longer than the limit it sets --------------------
+// the queue written for an address holds at most MaxDESize entries, MaxDESize being the value of THIS genesis file's
+// parameters (the ones SetParams just stored and EnqueueDEs will enforce from block 1 on)
+//@ func (k Keeper) SetMembers
+//@ trusted
+//@ modifies Store_tss
+//@ func (k Keeper) InitGenesis
+//@ modifies Store_tss
+//@ may_panic
+//@ assert before acc: len(des) <= data.Params.MaxDESize
